@@ -156,3 +156,81 @@ _run_base15 = run
 def run(ctx):  # noqa: F811
     _run_base15(ctx)
     _run_r7(ctx)
+    _run_r8(ctx)
+
+
+def _run_r8(ctx):
+    """C15-R8: through a forwarding proxy the Host header is re-derived from the URL of each hop."""
+    m = ctx.model
+    from ..events import run_function
+    from ..interp import AV, UNK, BaseRule, Out
+    from ..rows import GenRule, effect_rows, helper_closure
+    R8 = ctx.rule("C15-R8", "the Host header follows the URL on every hop: the Host that ProxyManager derives from a URL (for requests forwarded to an HTTP proxy) is not carried, as if it were the caller's, into the request for another URL - either the URL-derived Host takes precedence over a carried one, or the derived headers are not what the redirect logic carries on, or the carried mapping loses its Host when the target changes", "E4 on _set_proxy_headers + E10 rows of ProxyManager.urlopen + resend analysis of PoolManager.urlopen")
+    PMGR = f"{PM}.ProxyManager"
+    if PMGR not in m.classes or "_set_proxy_headers" not in m.classes[PMGR].methods:
+        raise AnalysisError("ProxyManager._set_proxy_headers not found")
+    spf = m.method(PMGR, "_set_proxy_headers")
+
+    class HRule(BaseRule):
+        def call(self, it, st, node, recv, pos, kw):
+            t = ast.unparse(node.func)
+            if t.endswith("parse_url"):
+                return [Out("normal", st, AV("obj", "parsed", truth=True, none=False))]
+            if it.resolve_callee(node, recv) in it.inline:
+                return None
+            return [Out("normal", st, UNK)]
+
+        def getattr(self, it, st, node, base):
+            if base.kind == "obj" and base.val == "parsed":
+                return AV("unk", tags=frozenset({"auto-host"}), sym=f"parsed.{node.attr}")
+            return None
+
+    ps = spf.params()
+    outs, it = run_function(m, spf, HRule(), PMGR, inline=None,
+                            params={ps[0]: AV("unk", sym="p:url"), ps[1]: AV("unk", sym="p:headers", tags=frozenset({"carried"}), truth=True, none=False)})
+    ctx.states += it.budget.steps
+    rets = [o for o in outs if o.kind == "return" and o.val is not None and o.val.kind == "dict"]
+    ctx.sites(R8, len(rets), 1, "returning paths of _set_proxy_headers with caller headers present")
+    auto = carried_wins = False
+    for o in rets:
+        for k_, v_ in dict(o.val.val[0]).items():
+            if isinstance(k_, str) and k_.lower() == "host" and "auto-host" in v_.tags:
+                auto = True
+                if "maybe-overridden" in v_.tags and "carried" in v_.tags:
+                    carried_wins = True
+    ctx.ob(R8, spf.qual, "a Host is derived from the URL for forwarded requests", auto, "" if auto else "no Host derived from the URL: a forwarding proxy gets no Host at all", node=spf.node)
+    # does ProxyManager.urlopen store the derived headers where the redirect logic carries them on?
+    pu = m.method(PMGR, "urlopen")
+    prow = effect_rows(ctx, pu, GenRule(ctx, pu.module, inline=frozenset(helper_closure(m, [pu], stop=("_set_proxy_headers",)) - {pu.qual})), PMGR)
+    carried_on = False
+    n_fw = 0
+    for r in prow:
+        tun = None
+        for k_, (t_, _n) in r.st.facts.items():
+            if isinstance(k_, str) and k_.startswith("connection_requires_http_tunnel("):
+                tun = t_
+        for e in r.events("call"):
+            if e[1] == "super.urlopen":
+                hs = [a for a in e[2:] if isinstance(a, str) and a.startswith("headers=") and "_set_proxy_headers(p:url" in a.replace(" ", "")]
+                if hs and ("p:**kw" in hs[0] or "p:headers" in hs[0]):
+                    carried_on = True  # f(url, carried headers) is handed down as the headers of this hop
+                if tun is False:
+                    # forwarded to the proxy: the connection is to the proxy, so without this the stdlib would name the proxy in Host
+                    n_fw += 1
+                    ctx.ob(R8, pu.qual, "a request forwarded to the proxy carries the headers derived from its URL (Host = the URL's host and port)", bool(hs),
+                           "" if hs else "on the forwarding arm the request's headers are not passed through _set_proxy_headers(url, ..): the Host header would name the proxy", witness=r.witness(), node=pu.node)
+    ctx.sites(R8, n_fw, 1, "forwarding rows of ProxyManager.urlopen")
+    # does the manager's redirect resend carry the headers it was given to the next URL?
+    mrule, mfi, mouts = resend.analyse(ctx, "manager")
+    redirect_keeps = False
+    for s in mrule.sites:
+        if s.kind != "resend":
+            continue
+        u, h = s.args.get("url"), s.args.get("headers")
+        if u is not None and any(t.startswith("ref:location") for t in u.tags) and h is not None and "entry" in h.tags and "host-dropped" not in h.tags:
+            redirect_keeps = True
+    bad = auto and carried_wins and carried_on and redirect_keeps
+    ctx.ob(R8, spf.qual, "the URL-derived Host of one hop cannot reach the request for another URL", not bad,
+           "" if not bad else "the mapping returned by _set_proxy_headers (Host = netloc of the current URL, but a Host already in the given headers wins) is stored as the request's headers; "
+           "PoolManager.urlopen carries those headers into the resend for the redirect target, where ProxyManager.urlopen treats the previous hop's Host as the caller's: "
+           "after a redirect to another host through a forwarding proxy the request line names the new host and the Host header the old one", node=spf.node)
